@@ -212,7 +212,7 @@ Definition lcd_i2c : list entry :=
    req "i2c_addr" (kw "i2c_addr")].
 
 (* one row per handler; the entries are the IR fields that carry a parameter, in signature
-   order.  Parameters of the host signature that have no entry have no device counterpart
+   order.  Host-signature parameters that have no entry have no device counterpart
    (simulation hooks such as state_provider, serial port/timeout/newline, sensor model). *)
 (* [Eval vm_compute]: the stored table is the normal form (plain code points), so the
    extracted model does not depend on Coq strings *)
